@@ -271,6 +271,14 @@ def impl_case(c):
                         raise ValueError(tool)
                 if res is not None:
                     out["out"] = res.text.joined
+                    if tool in ("reformat", "reformat_ft", "reformat_str"):
+                        n0 = len(passes)
+                        try:
+                            again = S.reformat_import_statements(PythonBlock(out["out"]), params=params)
+                            out["again"] = {"out": again.text.joined}
+                        except BaseException as e:
+                            out["again"] = {"exc": type(e).__name__}
+                        del passes[n0:]
             except BaseException as e:
                 out["exc"] = type(e).__name__
                 out["msg"] = str(e)[:200]
@@ -359,19 +367,36 @@ def closed_ok(p):
     return True
 
 
-def closed_expr(p):
-    from . import c11
-    try:
-        tree, nodes = G.nodes_of(p["input"], tuple(p["sp"]))
-    except (SyntaxError, ValueError):
-        return None
+def cnodes_expr(text, sp):
+    """CPython's node list for `text`, with the imports of each import statement, as a Gallina list"""
+    tree, nodes = G.nodes_of(text, tuple(sp))
     items = []
     for n, node in zip(nodes, tree.body):
         imps = ast_imports(node) if n["kind"] == "Import" else []
         items.append("(%s, %s, %s, %s, %s)" % (cm.cnat(n["start"][0]), cm.cnat(n["start"][1]), cm.cnat(n["last"]), cm.cnat(KCODE[n["kind"]]),
                                                cm.clist([cm.cpair(cm.cstr(f), cm.cstr(a)) for f, a in imps])))
-    return "run_reformat_closed %s %s %s %s %s" % (cm.cstr(p["input"]), cm.cnat(p["sp"][0]), cm.cnat(p["sp"][1]),
-                                                   cm.clist(items), c11.c_params(p["P"]))
+    return cm.clist(items)
+
+
+def closed_expr(p):
+    from . import c11
+    try:
+        return "run_reformat_closed %s %s %s %s %s" % (cm.cstr(p["input"]), cm.cnat(p["sp"][0]), cm.cnat(p["sp"][1]),
+                                                       cnodes_expr(p["input"], p["sp"]), c11.c_params(p["P"]))
+    except (SyntaxError, ValueError, AssertionError):
+        return None
+
+
+def idem_expr(p):
+    """first pass + second pass over the implementation's real output of this pass (node list of the
+    output from CPython): evaluates sets_okb, oracle_compositionalb and both outputs"""
+    from . import c11
+    try:
+        return "run_idem_closed %s %s %s %s %s %s" % (cm.cstr(p["input"]), cm.cnat(p["sp"][0]), cm.cnat(p["sp"][1]),
+                                                      cnodes_expr(p["input"], p["sp"]), cnodes_expr(p["out"], [1, 1]),
+                                                      c11.c_params(p["P"]))
+    except (SyntaxError, ValueError, AssertionError):
+        return None
 
 
 # ---------------------------------------------------------------------------------------------
@@ -580,6 +605,7 @@ def run(ctx):
                             "non-trivial = the module has a top-level import statement or a block was inserted; distinct by hash of the case")
     ctx.assumptions += [
         "open mode: the rendering of each import block (R), the number of insert_new_import_block calls and the import-set edits are captured from the implementation run; the structural model (split, group, insert, print) is evaluated on them",
+        "C03 closed fixed point (C01_C03_reformat_idempotent_closed / Properties/C03closed.v): on every closed pass the model re-runs the closed reformat on the pass's real output with CPython's node list for that output; sets_okb (C11's domain, decided in the kernel) and oracle_compositionalb are evaluated, a false oracle_compositionalb inside the domain is a disagreement; for the reformat tools the implementation's own second pass is compared with the model's",
         "closed mode (every pure reformat pass: reformat_*, transform, canonicalize, and the first pass of tidy): the import sets are built by the C11 model (from_imports true) from the imports the harness reads off stdlib ast, the blocks are rendered by the C11 formatter model (print_set_r) with the pass's ImportFormatParams, and the complete output text is predicted from input text + CPython's node list + parameters; counts in passes_closed / passes_open_only",
         "CPython's top-level node list (character columns, kinds Import/StrExpr/Other, last lines) is computed by the harness from ast + tokenize",
         "block selection (find_import_block_by_lineno, select_import_block_by_closest_prefix_match) and the import-set algebra belong to C03/C04 (S2S/Tidy.v); a tool that raises is counted, not compared",
@@ -612,15 +638,21 @@ def run(ctx):
                 e = closed_expr(p)
                 if e is not None:
                     cexprs.append(e)
-                    cwhere.append((ci, pi))
+                    cwhere.append((ci, ("closed", pi)))
+                    e2 = idem_expr(p) if len(p["out"]) <= MAX_MODEL_CHARS else None
+                    if e2 is not None:
+                        cexprs.append(e2)
+                        cwhere.append((ci, ("idem", pi)))
     cmodel = cm.coq_eval_json(REQ_CLOSED, cexprs, shard=40)
-    for (ci, pi), m in zip(cwhere, cmodel):
-        mv[(ci, ("closed", pi))] = m
+    for (ci, key), m in zip(cwhere, cmodel):
+        mv[(ci, key)] = m
     for ci, (c, im) in enumerate(zip(cases, impl)):
         compare_one(ctx, c, im, {k[1]: v for k, v in mv.items() if k[0] == ci})
     ctx.notes["model_evaluations_in_kernel"] = len(exprs) + len(cexprs)
     d = ctx.coverage.get("distribution", {})
     ctx.notes["passes_closed"] = d.get("pass_closed", 0)
+    ctx.notes["idempotence_hypotheses_evaluated_true"] = d.get("idem_hypotheses_hold", 0)
+    ctx.notes["idempotence_outside_C11_domain"] = d.get("idem_outside_C11_domain", 0)
     ctx.notes["passes_open_only"] = d.get("passes", 0) - d.get("pass_closed", 0)
 
 
@@ -673,6 +705,21 @@ def compare_one(ctx, c, im, mvs):
                     ctx.disagreement("closed mode: import sets of the blocks (ImportSet(block, ignore_shadowed=True))", short(c), p["sets"], mc["sets"])
                 elif mc["out"] != p["out"]:
                     ctx.disagreement("closed mode: output text predicted from text + nodes + params", short(c), p["out"], mc["out"])
+        mi = mvs.get(("idem", pi))
+        if mi is not None and mi.get("out1") == p["out"]:
+            # hypotheses and conclusion of C03_reformat_idempotent_closed on this pass
+            if not mi["sets_ok"]:
+                ctx.bump("idem_outside_C11_domain")          # non-ASCII / keyword names: theorem does not apply
+            elif mi["compositional"] is not True:
+                ctx.disagreement("oracle_compositional is false on CPython's node list of the first pass's output", short(c),
+                                 {"out": p["out"][:300]}, mi)
+            else:
+                ctx.bump("idem_hypotheses_hold")
+            if mi["out2"] != mi["out1"] and (mi["sets_ok"] or mi["out2"] is not None):
+                ctx.disagreement("closed second pass differs from the first pass's output", short(c), mi["out1"][:400], (mi["out2"] or "null")[:400])
+            if "again" in im and pi == len(im["passes"]) - 1 and "exc" not in im["again"]:
+                if im["again"]["out"] != mi["out2"]:
+                    ctx.disagreement("second pass: implementation vs closed model", short(c), im["again"]["out"][:400], (mi["out2"] or "null")[:400])
         expected_input = p["out"]
         ctx.bump("passes")
         if p["inserts"]:
